@@ -53,51 +53,118 @@ class DepLoopSem(Semantics):
         return state
 
 
+def _membership_condition(ctx, sem, inner):
+    """(condition expr, the sub-expression standing for the dependency's scheduled status, dep variable, appended expr, list name, wrapper name, site)
+    for either the for-loop form or the comprehension form of the prerequisite list."""
+    def wrapper_call(expr, depvar):
+        for c in _calls(expr):
+            if isinstance(c.func, ast.Name) and len(c.args) == 1 and dotted(c.args[0]) == depvar and c.func.id != sem.status_p:
+                return c
+        return None
+
+    if sem.dep_comp is not None:
+        asg, comp = sem.dep_comp
+        g = comp.generators[0]
+        depvar = dotted(g.target)
+        if len(g.ifs) != 1:
+            return None
+        wc = wrapper_call(g.ifs[0], depvar)
+        if wc is None:
+            return None
+        return g.ifs[0], wc, depvar, comp.elt, asg.targets[0].id, wc.func.id, asg
+    lp = sem.dep_loop
+    if lp is None:
+        return None
+    depvar = dotted(lp.target)
+    status_var = None
+    wname = None
+    for st in lp.body:
+        if isinstance(st, ast.Assign) and isinstance(st.targets[0], ast.Name):
+            wc = wrapper_call(st.value, depvar)
+            if wc is not None and st.value is wc:
+                status_var, wname = st.targets[0].id, wc.func.id
+    for st in lp.body:
+        if isinstance(st, ast.If):
+            apps = [c for s2 in st.body for c in _calls(s2) if isinstance(c.func, ast.Attribute) and c.func.attr in ("append", "add")]
+            if not apps:
+                continue
+            wc = wrapper_call(st.test, depvar)
+            if wc is not None:
+                return st.test, wc, depvar, apps[0].args[0] if apps[0].args else None, dotted(apps[0].func.value), wc.func.id, lp
+            if status_var is not None:
+                names = [n for n in ast.walk(st.test) if isinstance(n, ast.Name) and n.id == status_var]
+                if names:
+                    return st.test, names[0], depvar, apps[0].args[0] if apps[0].args else None, dotted(apps[0].func.value), wname, lp
+    return None
+
+
 def rule_prerequisites(ctx, r):
+    from ..astutil import clone
     idx = ctx.index
     outer, inner, sem, rows = explore_schedule(ctx)
     con = f"{inner.module.relpath}::{inner.qual}::dependency-loop"
-    lp = sem.dep_loop
-    if lp is None:
+    if sem.dep_loop is None and sem.dep_comp is None:
         r.violation(con, "loop over all dependencies of the target not found", inner.where)
-        return
+        return None
     smembers = enum_members(idx, idx.cls("gwf.core:Status"))
-    depvar = lp.target.id if isinstance(lp.target, ast.Name) else None
-    # status variable: assigned from the memoised scheduling of the loop variable
-    status_var = None
-    callee_name = None
-    for st in lp.body:
-        if isinstance(st, ast.Assign) and isinstance(st.targets[0], ast.Name) and isinstance(st.value, ast.Call) and isinstance(st.value.func, ast.Name) \
-                and len(st.value.args) == 1 and dotted(st.value.args[0]) == depvar:
-            status_var = st.targets[0].id
-            callee_name = st.value.func.id
-    if status_var is None:
-        r.violation(con, "the loop does not take the scheduled status of each dependency from the memoised scheduler", loc(lp, inner.module))
-        return
-    brk = [b for b in ast.walk(lp) if isinstance(b, (ast.Break, ast.Continue, ast.Return))]
-    r.check(not brk, con + "::complete", "loop has no break/continue/return", "the dependency loop can stop early: later dependencies are neither decided nor listed",
-            loc(lp, inner.module))
-    dsem = DepLoopSem(ctx, inner, status_var, smembers)
-    ex = Explorer(dsem)
-    ex.block(lp.body, State())
+    mc = _membership_condition(ctx, sem, inner)
+    if mc is None:
+        r.violation(con, "the dependency loop does not add a dependency to the prerequisite list under a test of its scheduled status "
+                    "(taken from the memoised scheduler)", inner.where)
+        return None
+    cond, status_expr, depvar, appended, lst, wname, site = mc
+    if isinstance(site, ast.For):
+        brk = [b for b in ast.walk(site) if isinstance(b, (ast.Break, ast.Continue, ast.Return))]
+        r.check(not brk, con + "::complete", "loop has no break/continue/return", "the dependency loop can stop early: later dependencies are neither decided nor listed",
+                loc(site, inner.module))
+    else:
+        r.ok(con + "::complete", "comprehension over all dependencies", loc(site, inner.module))
+    # evaluate the condition for every Status member standing for the dependency's scheduled status
+    got = set()
+    undecided = None
+    target_id = id(status_expr)
+
+    class _Sub(ast.NodeTransformer):
+        def generic_visit(self, node):
+            return super().generic_visit(node)
+
+    def substituted():
+        def rec(n):
+            if n is status_expr:
+                return ast.Name(id="__st", ctx=ast.Load())
+            if isinstance(n, list):
+                return [rec(x) for x in n]
+            if not isinstance(n, ast.AST):
+                return n
+            new = type(n)()
+            for f in n._fields:
+                if hasattr(n, f):
+                    setattr(new, f, rec(getattr(n, f)))
+            return new
+        return ast.fix_missing_locations(ast.copy_location(rec(cond), cond))
+
+    test = substituted()
+    for n in ast.walk(test):
+        n._module = inner.module
+    for m in smembers:
+        try:
+            if ctx.ev.eval(test, inner.module, {"__st": EnumVal("gwf.core.Status", m)}):
+                got.add(m)
+        except CantEval as exc:
+            undecided = str(exc)
     want = frozenset(smembers) - {"COMPLETED"}
-    if not dsem.appends:
-        r.violation(con, "no dependency is ever added to the prerequisite list", loc(lp, inner.module))
-        return
-    got = frozenset().union(*[d for _c, d in dsem.appends])
-    vals_ok = all(c.args and dotted(c.args[0]) == depvar for c, _d in dsem.appends)
-    lst_ok = all(dotted(c.func.value) in sem.lists for c, _d in dsem.appends)
-    if got != want:
+    if undecided:
+        r.violation(con + "::states", f"cannot evaluate the prerequisite test `{ast.unparse(cond)}` over the Status members ({undecided})", loc(cond, inner.module))
+    elif frozenset(got) != want:
         miss, extra = sorted(want - got), sorted(got - want)
         r.violation(con + "::states", "a dependency becomes a prerequisite for scheduled statuses "
                     f"{sorted(got)}; the property requires exactly the not-complete ones {sorted(want)}"
                     + (f" (missing {miss}: such a dependency is submitted in this run or in flight, but the target would not wait for it)" if miss else "")
-                    + (f" (extra {extra}: a complete dependency has no job to wait for)" if extra else ""), loc(lp, inner.module))
+                    + (f" (extra {extra}: a complete dependency has no job to wait for)" if extra else ""), loc(cond, inner.module))
     else:
-        r.ok(con + "::states", f"dependency appended iff its scheduled status is in {sorted(want)}", loc(lp, inner.module))
-    r.check(vals_ok and lst_ok, con + "::element", "the dependency itself is appended to the list later passed to submit",
-            "what is appended is not the dependency target (or goes to another list)", loc(lp, inner.module))
-    # SUBMITTED_STATES constant itself
+        r.ok(con + "::states", f"dependency listed iff its scheduled status is in {sorted(want)}", loc(cond, inner.module))
+    r.check(appended is not None and dotted(appended) == depvar and lst in sem.lists, con + "::element", "the dependency itself goes into the list later passed to submit",
+            "what is collected is not the dependency target (or goes to another list)", loc(site, inner.module))
     try:
         ss = ctx.ev.eval_global(SCHED, "SUBMITTED_STATES")
         got2 = frozenset(x.member for x in ss)
@@ -105,7 +172,7 @@ def rule_prerequisites(ctx, r):
                 f"SUBMITTED_STATES = {sorted(got2)} differs from all-but-COMPLETED {sorted(want)}", "src/gwf/scheduling.py:10")
     except Exception:
         r.info("src/gwf/scheduling.py::SUBMITTED_STATES", "constant not present as a plain table (the loop evaluation above decides)")
-    return callee_name
+    return wname
 
 
 def rule_memo(ctx, r, wrapper_name):
@@ -140,20 +207,60 @@ def rule_memo(ctx, r, wrapper_name):
             f"the decision function is called directly from {[f.qual for f, _ in callers if f.key != wrapper.key] or 'nowhere'}, bypassing the memo: "
             "a target can be submitted more than once", inner.where)
     tparam = wrapper.positional_params()[0]
-    guard = store = ret = False
-    cache_name = None
-    for n in walk_no_nested(wrapper.node):
-        if isinstance(n, ast.If) and isinstance(n.test, ast.Compare) and isinstance(n.test.ops[0], ast.NotIn) and dotted(n.test.left) == tparam:
-            cache_name = dotted(n.test.comparators[0])
-            for st in n.body:
-                if isinstance(st, ast.Assign) and ast.unparse(st.targets[0]) == f"{cache_name}[{tparam}]" and isinstance(st.value, ast.Call) \
-                        and isinstance(st.value.func, ast.Name) and st.value.func.id == inner.name and dotted(st.value.args[0]) == tparam:
-                    guard = store = True
-        if isinstance(n, ast.Return) and cache_name and ast.unparse(n.value) == f"{cache_name}[{tparam}]":
-            ret = True
-    r.check(guard and store and ret, wcon, "decides a target only if it is not in the cache, stores and returns the cached status",
-            "the memo wrapper does not guard the decision by `target not in cache` / store / return the cached value: targets are decided (and submitted) repeatedly",
-            wrapper.where)
+
+    class MemoSem(Semantics):
+        def may_raise(self, node, state):
+            return []
+
+        def test_hook(self, expr, state):
+            e, neg = expr, False
+            if isinstance(e, ast.UnaryOp) and isinstance(e.op, ast.Not):
+                e, neg = e.operand, True
+            if isinstance(e, ast.Compare) and len(e.ops) == 1 and isinstance(e.ops[0], (ast.In, ast.NotIn)) and dotted(e.left) == tparam:
+                inn = isinstance(e.ops[0], ast.In)
+                st = state.with_fact("cache_name", dotted(e.comparators[0]))
+                return [((True ^ neg), st.with_fact("hit", inn)), ((False ^ neg), st.with_fact("hit", not inn))]
+            return None
+
+        def effect(self, node, state):
+            if isinstance(node, tuple):
+                return state
+            for c in _calls(node):
+                if isinstance(c.func, ast.Name) and c.func.id == inner.name:
+                    state = state.with_fact("decided", state.facts.get("decided", 0) + 1).with_fact("decided_arg", dotted(c.args[0]) if c.args else None)
+                    if isinstance(node, ast.Assign) and isinstance(node.targets[0], ast.Name):
+                        state = state.with_fact("result_var", node.targets[0].id)
+            if isinstance(node, ast.Assign) and isinstance(node.targets[0], ast.Subscript) and dotted(node.targets[0].slice) == tparam:
+                v = node.value
+                direct = isinstance(v, ast.Call) and isinstance(v.func, ast.Name) and v.func.id == inner.name
+                via = isinstance(v, ast.Name) and v.id == state.facts.get("result_var")
+                state = state.with_fact("stored", dotted(node.targets[0].value) if (direct or via) else "?")
+            return state
+
+    msem = MemoSem(idx, wrapper)
+    mouts = Explorer(msem).run(State())
+    problems = []
+    for o in mouts:
+        f_ = o.state.facts
+        cname = f_.get("cache_name")
+        ret = ast.unparse(o.payload) if isinstance(o.payload, ast.AST) else None
+        if f_.get("hit") is True:
+            if f_.get("decided"):
+                problems.append("a target that is already in the cache is decided again")
+            if ret != f"{cname}[{tparam}]":
+                problems.append(f"a cache hit returns `{ret}` instead of the cached status")
+        elif f_.get("hit") is False:
+            if f_.get("decided") != 1 or f_.get("decided_arg") != tparam:
+                problems.append("a target that is not in the cache is not decided exactly once")
+            if f_.get("stored") != cname:
+                problems.append("the decided status is not stored in the cache")
+            if ret not in (f"{cname}[{tparam}]", f_.get("result_var")):
+                problems.append(f"the wrapper returns `{ret}` instead of the decided status")
+        else:
+            problems.append("the wrapper does not test whether the target is already in the cache")
+    cache_name = next((o.state.facts.get("cache_name") for o in mouts if o.state.facts.get("cache_name")), None)
+    r.check(not problems and mouts, wcon, "decides a target only if it is not in the cache, stores and returns the (cached) status",
+            "the memo wrapper is broken: " + "; ".join(sorted(set(problems))) + " - targets are decided (and submitted) repeatedly or get a wrong status", wrapper.where)
     # endpoints loop and returned map
     loop_ok = False
     for n in walk_no_nested(outer.node):
@@ -245,7 +352,8 @@ def rule_cone_selection(ctx, r):
     r.check(uses_fnmatch and by_name and all_patterns, f"{nf.module.relpath}::{nf.qual}", "fnmatch of every pattern on target names, mapped back by name",
             "NameFilter.apply does not select by fnmatch of every pattern against the target names", nf.where)
     # submit_workflow hands the endpoints to schedule
-    sw = idx.func("gwf.scheduling:submit_workflow")
+    from ..inline import inlined
+    sw = inlined(ctx, idx.func("gwf.scheduling:submit_workflow"))
     ok = False
     for c in _calls(sw.node):
         if isinstance(c.func, ast.Name) and c.func.id == "schedule" and c.args and dotted(c.args[0]) == sw.positional_params()[0]:
